@@ -34,6 +34,8 @@ pub const FAMILIES: &[(&str, u64)] = &[
     ("many-hints", 1),
     ("many-excl", 2),
     ("many-excl-hints", 1),
+    ("union-conf", 2),
+    ("union-conf-hints", 2),
 ];
 
 pub struct GraphFacts {
